@@ -755,6 +755,9 @@ def run(prog, chk, tier):
                        "(appended to the run being assembled) -- a must-use rule over all paths; the three conversions are interpreted in the layout domain; the rejection "
                        "guards are located by relational normal form and must dominate the use they protect; the tag-type tables must agree with each other and with the "
                        "pinned domain table; exec_bf2instrs' stores are grouped by the instruction test that encloses them. Execution on concrete BF2 images is not performed.")
+    from rules import state as _state
+
+    _state.library_state_rules(prog, chk, "C13")
     line_parser_rules(prog, chk, "C13")
     unpack_rules(prog, chk, "C13")
     stackrt.guarded(chk, "C13.import-scenarios", import_scenarios, prog, chk, "C13", tier)
